@@ -529,6 +529,10 @@ async def _daemon(
     state = progression.State.from_scratch().with_handlers([handler])
     while not stopper.is_set() and not state.done:
 
+        # Give other tasks a chance on every iteration: neither the invocation of an async handler
+        # that does not await, nor an empty patch, nor a zero delay yield to the event loop.
+        await asyncio.sleep(0)
+
         outcomes = await execution.execute_handlers_once(
             lifecycle=lifecycles.all_at_once,  # there is only one anyway
             settings=settings,
@@ -599,6 +603,10 @@ async def _timer(
     clock = asyncio.get_running_loop().time
     state = progression.State.from_scratch().with_handlers([handler])
     while not stopper.is_set():  # NB: ignore state.done! it is checked below explicitly.
+
+        # Give other tasks a chance on every iteration: neither the invocation of an async handler
+        # that does not await, nor an empty patch, nor a zero delay/interval yield to the loop.
+        await asyncio.sleep(0)
 
         # Reset success/failure retry counters & timers if it has succeeded. Keep it if failed.
         # Every next invocation of a successful handler starts the retries from scratch (from zero).
